@@ -223,6 +223,26 @@ func init() {
 				UTXOs: []c12UTXO{{TxID: r.Bytes(32), Vout: 1, Script: gen.P2PKH(r.Bytes(20)), Value: 1}}})
 			judge(c, in)
 		}
+		c.Phase("many-outputs") // starting transactions whose output count sits around the 252/253 varint boundary
+		for i, no := range []int{251, 252, 253, 254, 255, 300, 252, 253, 254, 300} {
+			if !c.Case(uint64(i)) {
+				continue
+			}
+			r := c.Rand(uint64(i))
+			in := &c12In{}
+			s, b := prng.Pick(r, []int{1, 5, 50, 500}), prng.Pick(r, []int{1, 3, 100})
+			in.Quote = mQuote{StdSat: s, StdBytes: b, DataSat: s, DataBytes: b}
+			in.Tx.Version = 1
+			in.Tx.Outs = []mOuts{{Sats: 100 + uint64(r.Intn(50)), Script: gen.P2PKH(r.Bytes(20)), Repeat: no - 1}, {Sats: 7, Script: gen.P2PKH(r.Bytes(20))}}
+			for k := 0; k < 2; k++ {
+				in.Steps = append(in.Steps, c12Step{Kind: "batch", UTXOs: []c12UTXO{{TxID: r.Bytes(32), Vout: uint32(k), Script: gen.P2PKH(r.Bytes(20)), Value: uint64(1000 + r.Intn(5000))}}})
+			}
+			in.Steps = append(in.Steps, c12Step{Kind: "batch", Target: "cover", Delta: int64(r.Intn(3) - 1),
+				UTXOs: []c12UTXO{{TxID: r.Bytes(32), Vout: 0, Script: gen.P2PKH(r.Bytes(20)), Value: 1}}})
+			in.Steps = append(in.Steps, c12Step{Kind: "batch", Target: "cover", Delta: 0,
+				UTXOs: []c12UTXO{{TxID: r.Bytes(32), Vout: 1, Script: gen.P2PKH(r.Bytes(20)), Value: 1}}})
+			judge(c, in)
+		}
 		c.Phase("histories")
 		N := uint64(100000)
 		if c.Thorough {
